@@ -705,7 +705,7 @@ def cache_histories(ctx):
 # ---- driver -------------------------------------------------------------------------------------
 THOROUGH_OPS_ALL = 4        # every context
 THOROUGH_OPS_MAIN = 5       # BIG_CONTEXTS only
-BIG_CONTEXTS = ('if', 'yield')
+BIG_CONTEXTS = ('if',)
 
 def space_a(ctx):
     """-> (list of explicit cases, list of split descriptors, expected number of cases, text)"""
